@@ -7,9 +7,17 @@ from . import func_xltypes, xlerrors
 COMPATIBILITY = 'EXCEL'
 CELL_CHARACTER_LIMIT = 32767
 
+
+def _cast_text(value):
+    # Excel spells logical values TRUE/FALSE when they are used as text.
+    if isinstance(value, (bool, func_xltypes.Boolean)):
+        return func_xltypes.Text(str(bool(value)).upper())
+    return func_xltypes.Text.cast(value)
+
+
 TYPE_TO_CAST = {
     func_xltypes.XlNumber: func_xltypes.Number.cast,
-    func_xltypes.XlText: func_xltypes.Text.cast,
+    func_xltypes.XlText: _cast_text,
     func_xltypes.XlBoolean: func_xltypes.Boolean.cast,
     func_xltypes.XlDateTime: func_xltypes.DateTime.cast,
     func_xltypes.XlArray: func_xltypes.Array.cast,
